@@ -130,6 +130,16 @@ def reorder_points(tier):
                             for od in ods:
                                 for bd in (8, 16, 32):
                                     pts.append((iu, ou, bits, mode, dil, kh, kw, idp, od, bd))
+    if tier == "quick":
+        # asymmetric dilations (the sub-kernel decomposition differs per axis) on kernels wider / taller than one sub-kernel
+        for (iu, ou) in ublocks:
+            for bits in (8, 16):
+                for mode in ("depth", "part", "dw"):
+                    for dil in ((2, 1), (1, 2)):
+                        for (kh, kw) in ((2, 5), (5, 2), (3, 6), (6, 3), (1, 9), (9, 1)):
+                            for idp in ((1,) if mode == "dw" else (3, 17)):
+                                for od in (7, 17):
+                                    pts.append((iu, ou, bits, mode, dil, kh, kw, idp, od, 16))
     return pts
 
 
